@@ -1215,6 +1215,10 @@ def getattr_value(I_, obj, name, st, ctx, k, node=None):
   # concrete python objects
   if isinstance(obj, type):
     # class attribute
+    for c_ in obj.__mro__:
+      ov = st.ghost.get(("$classattr", c_, name), _MISSING)
+      if ov is not _MISSING:
+        return k(st, ov)
     f = I_.class_lookup(obj, name)
     if f is _MISSING:
       # metaclass attribute (e.g. __name__) or real getattr
@@ -1279,6 +1283,10 @@ def obj_getattr(I_, ref, o, cls, name, st, ctx, k, node):
       return I_.split(v, st, cont)
     else:
       return k(st, v)
+  for c_ in cls.__mro__:
+    ov = st.ghost.get(("$classattr", c_, name), _MISSING)
+    if ov is not _MISSING:
+      return k(st, ov)
   if f is not _MISSING:
     if isinstance(f, (types.MemberDescriptorType,)):
       return I_.raise_exc(st, ctx, AttributeError, name, node)
@@ -1337,6 +1345,10 @@ def setattr_value(I_, obj, name, v, st, ctx, k, node=None, raw=False):
     if "__slots__" in cls.__dict__ and not hasattr(cls, "__dict__"):
       pass
     st.obj(obj).data[name] = v
+    return k(st)
+  if isinstance(obj, type) and is_repo_class(I_, obj):
+    # class attribute written at run time (e.g. the ipv4.ip_id counter): kept in a per-path overlay
+    st.ghost[("$classattr", obj, name)] = v
     return k(st)
   if isinstance(obj, type) or I_.is_modelled_instance(obj) or isinstance(obj, types.ModuleType):
     raise Unsupported("assignment to attribute %s of concrete global object %r" % (name, obj))
@@ -1402,6 +1414,18 @@ def getitem(I_, obj, idx, st, ctx, k, node=None):
   where = I_.where(ctx, node)
   if isinstance(obj, z3.ArrayRef):
     return k(st, concretize(z3.Select(obj, zint(idx))))
+  if isinstance(obj, WordArr):
+    if not is_intlike(idx):
+      raise Unsupported("array slice")
+    L = obj.data.length()
+    n = (L // 2) if isinstance(L, int) else concretize(zint(L) / 2)
+    zi = zint(idx)
+    def cont_w(st2):
+      lo = sb.byte_at(obj.data, concretize(2 * zi), st2)
+      hi = sb.byte_at(obj.data, concretize(2 * zi + 1), st2)
+      return k(st2, concretize(zint(lo) + 256 * zint(hi)))
+    return I_.safety(st, z3.And(zi >= 0, zi < zint(n)), "safe.index@" + where,
+                     ExcVal(IndexError, ("array index out of range",), where), ctx, cont_w)
   if isinstance(obj, (SBytes, bytes, str)) and (isinstance(obj, SBytes) or not fully_concrete(idx)
                                                 or isinstance(idx, SliceVal) and not fully_concrete((idx.lo, idx.hi))):
     s = as_sbytes(obj)
